@@ -183,6 +183,23 @@ CHECKS["C03"] = dict(
     technique="Lean 4 proof over ordered fields (induction on cuts and tilings) + Rat/Float model correspondence on two entry points + exact-Fraction document oracle",
     design="§7 C03")
 
+CHECKS["C19"] = dict(
+    text="Machine-checked (Lean 4) on tree-level models of every producer and of the readers: die and allocation writers round-trip "
+         "exactly (width, height, blockages, tagged regions; cells, ratio maps, depths with depth 0 written by omission); every netgen "
+         "topology (chain, ring, star, ring-star, one-net, grid, h-tree) at every size at which it is defined is accepted by the netlist "
+         "reader model and IS the intended graph (valid pairwise-distinct names, >= 2 distinct declared pins per net, positive weights; "
+         "h-tree index bookkeeping by induction on levels); the FloorSet converter's FPEF/DIEF documents and the three string-built "
+         "netlists (rect_io.get_netlist, solution_to_netlist, legalfloor get_netlist) are accepted and denote the source design; every "
+         "writer leaves its object unchanged, so two writes are identical (the original aliasing defect of dump_yaml_namededges is kept as "
+         "a theorem about the code as found). On every run the real producers and readers are executed on generated objects (before and "
+         "after refinement; every netgen size up to 12, thorough 40; synthetic FloorSet instances with polygons and pins on all borders), "
+         "each written twice with deep before/after snapshots, re-read, field-compared and compared with the Lean models.",
+    note="Text layer (ruamel dump/load, str(float)) and the readers' geometric self-checks are tested, not proved; FloorSet polygon "
+         "decomposition (C15) and the density factor are model inputs; the netlist reader model is C04/C05's; FloorSet-Lite inputs and "
+         "legalfloor on rectangle-less modules are outside the property's quantifier; five repairs committed first (C19_*).",
+    technique="Lean 4 round-trip / purity / topology proofs on tree-level models + execution of the real producers and readers with field-wise comparison",
+    design="§7 C19")
+
 NOT_APPLICABLE = {}
 
 def main():
